@@ -3,10 +3,13 @@
 package cmd
 
 import (
+	"fmt"
+	"runtime"
 	"bytes"
 	"strconv"
 	"time"
 
+	"github.com/goreleaser/nfpm/v2"
 	"github.com/goreleaser/nfpm/v2/files"
 	v "github.com/goreleaser/nfpm/v2/internal/zzverif"
 	"github.com/goreleaser/nfpm/v2/internal/zzverif/models"
@@ -42,6 +45,7 @@ func verifClock(format string) {
 			sc.Info.Changelog = models.AddFile("/src/changelog.yaml", []byte("- semver: 1.0.0\n"), 0o644, smt)
 		}
 	}
+	pristine := verifCloneInfo(sc.Info) // Package consumes the settings it is given
 	var buf bytes.Buffer
 	err := Packager(format).Package(sc.Info, &buf)
 	v.Reach("C07.clock.ran")
@@ -91,6 +95,31 @@ func verifClock(format string) {
 	// symbolic only (a native run cannot observe it; the timestamp clause above is its replayable face)
 	v.Assert(!v.DependsOn(out, "$now"), format+"-output-independent-of-the-clock")
 	v.Assert(!v.DependsOn(out, "hostname"), format+"-output-independent-of-the-host-name")
+	// the number of CPUs (runtime.GOMAXPROCS / NumCPU: fresh symbolic values) must
+	// not shape the output, e.g. through the block size of a parallel compressor.
+	// Natively the same settings with a multi-MiB payload are built under two CPU
+	// counts (block boundaries only show beyond one block).
+	cpuOK := true
+	if !v.Symbolic() {
+		big := make([]byte, 3<<20)
+		x := uint32(12345)
+		for i := range big {
+			x = x*1664525 + 1013904223
+			big[i] = byte(x >> 24)
+		}
+		pristine.Contents = append(pristine.Contents, &files.Content{Source: models.AddFile("/src/big.bin", big, 0o644, smt), Destination: "/opt/big.bin"})
+		var b1, b4 bytes.Buffer
+		prev := runtime.GOMAXPROCS(1)
+		e1 := Packager(format).Package(verifCloneInfo(pristine), &b1)
+		runtime.GOMAXPROCS(4)
+		e4 := Packager(format).Package(verifCloneInfo(pristine), &b4)
+		runtime.GOMAXPROCS(prev)
+		if format != "rpm" && (e1 != nil || e4 != nil || !bytes.Equal(b1.Bytes(), b4.Bytes())) {
+			cpuOK = false
+			v.Observe("cpu.sweep", fmt.Sprint(e1, e4, b1.Len(), b4.Len()))
+		}
+	}
+	v.Assert(!v.DependsOn(out, "$cpus") && cpuOK, format+"-output-independent-of-the-cpu-count")
 }
 
 func Verif_C07_Clock_Deb()  { verifClock("deb") }
@@ -168,3 +197,19 @@ func Verif_C07_MapOrder_Rpm()  { verifMapOrder("rpm") }
 func Verif_C07_MapOrder_Apk()  { verifMapOrder("apk") }
 func Verif_C07_MapOrder_Arch() { verifMapOrder("archlinux") }
 func Verif_C07_MapOrder_Ipk()  { verifMapOrder("ipk") }
+
+// verifCloneInfo copies settings deeply enough for an independent packaging:
+// the struct, the contents list and each entry with its file_info.
+func verifCloneInfo(info *nfpm.Info) *nfpm.Info {
+	cp := *info
+	cp.Contents = nil
+	for _, c := range info.Contents {
+		cc := *c
+		if c.FileInfo != nil {
+			fi := *c.FileInfo
+			cc.FileInfo = &fi
+		}
+		cp.Contents = append(cp.Contents, &cc)
+	}
+	return &cp
+}
